@@ -114,6 +114,13 @@ class Scenario:
         self.report_groups = parse_report(p.stdout)
         return self.report_groups
 
+    def env_extra(self):
+        """fake_mount: hook H2 (FCLONES_VERIF_MOUNTS) registers a fake mount point at the move target directory, so
+        are_on_same_mount(source, DIR) is false and dedupe_script emits Move { use_rename: false } (move_copy only)"""
+        if getattr(self, "fake_mount", False):
+            return {"FCLONES_VERIF_MOUNTS": "unknown=" + os.path.normpath(self.dir_arg())}
+        return {}
+
     def dir_arg(self):
         """the target directory as main.rs resolves it: cwd joined with the (possibly relative, un-normalised) argument"""
         if getattr(self, "dir_cli", None) and not self.dir_cli.startswith("/"):
@@ -123,7 +130,7 @@ class Scenario:
     def describe(self):
         return {"sid": self.sid, "groups": [{"content_len": len(g["content"]), "members": g["members"]} for g in self.groups],
                 "extra": [list(map(lambda x: x if not isinstance(x, bytes) else x.decode("latin1"), e)) for e in self.extra],
-                "move_dir": self.move_dir}
+                "move_dir": self.move_dir, "fake_mount": getattr(self, "fake_mount", False)}
 
 
 def parse_report(text):
@@ -169,7 +176,7 @@ def canon_temp(path, victims):
     return path
 
 
-def derive_cmds(op, report_groups, inv, move_dir_abs):
+def derive_cmds(op, report_groups, inv, move_dir_abs, use_rename=1):
     """The command list the implementation generates for the default configuration (n = 1, no priorities,
     hard links of one inode form one sub-group, sub-groups in order of first appearance; the first
     sub-group is kept and its first path is the link target).  Members that are not regular files or whose
@@ -200,7 +207,7 @@ def derive_cmds(op, report_groups, inv, move_dir_abs):
                 elif op == "dedupe":
                     cmds.append({"op": "rl", "t": target, "a": a, "tmp": tmp, "mt": inv[a][2]})
                 elif op == "move":
-                    cmds.append({"op": "mv", "a": a, "tgt": move_dir_abs + "/." + a, "rn": 1})
+                    cmds.append({"op": "mv", "a": a, "tgt": move_dir_abs + "/." + a, "rn": use_rename})
     return cmds
 
 
@@ -224,7 +231,7 @@ def cli_args(op, scn, no_lock=False):
 # running the binary under the shim
 
 def run_shim(fclones, shim, args, report, scope, fail=None, fail2=None, kill=None, sim_ficlone=False, cwd=None,
-             threads="1", timeout=60, binary_args_stdin=True):
+             threads="1", timeout=60, binary_args_stdin=True, env_extra=None):
     """returns dict(exit, stderr, stdout, trace=[fields...])"""
     env = dict(os.environ)
     env.update({"LD_PRELOAD": shim, "FSSHIM_SCOPE": scope, "RAYON_NUM_THREADS": threads})
@@ -236,6 +243,8 @@ def run_shim(fclones, shim, args, report, scope, fail=None, fail2=None, kill=Non
         env["FSSHIM_KILL_AT"], env["FSSHIM_KILL_WHEN"] = str(kill[0]), kill[1]
     if sim_ficlone:
         env["FSSHIM_SIM_FICLONE"] = "1"
+    if env_extra:
+        env.update(env_extra)
     with tempfile.TemporaryFile() as tf:
         fd = tf.fileno()
         env["FSSHIM_FD"] = str(fd)
